@@ -37,6 +37,9 @@ theorem grab_live {h : Heap} {U : Nat → Nat} {P PB : List Nat} (hb : Bal h U P
   · subst hxy; simp
   · simpa [upd, hxy] using hx
 
+theorem newBuf_objs (h : Heap) (bf : Buf) : (newBuf h bf).1.objs = h.objs := rfl
+theorem newBuf_nobj (h : Heap) (bf : Buf) : (newBuf h bf).1.nobj = h.nobj := rfl
+
 /-- `sqfs_meta_reader_create` -/
 theorem Bal.newMetaReader {h : Heap} {U : Nat → Nat} {P PB : List Nat} (hb : Bal h U P PB []) {file cmp : Nat}
     (hf : (h.objs file).isSome) (hc : (h.objs cmp).isSome) :
@@ -49,10 +52,13 @@ theorem Bal.newMetaReader {h : Heap} {U : Nat → Nat} {P PB : List Nat} (hb : B
   have b2 := b1.grabbed hoc (by simp)
   have hf2 := grab_live b1 hc1 (grab_live hb hf hf)
   have hc2 := grab_live b1 hc1 hc1
+  have b3 := b2.newBuf fieldsBuf
   constructor
-  · unfold Sqfs.Obj.newMetaReader
+  · show Bal (Sqfs.Obj.newObj (Sqfs.Obj.newBuf (grab (grab h file) cmp) fieldsBuf).1 .metaReader [some (Sqfs.Obj.newBuf (grab (grab h file) cmp) fieldsBuf).2] []
+        [some file, some cmp]).1 U ((Sqfs.Obj.newObj (Sqfs.Obj.newBuf (grab (grab h file) cmp) fieldsBuf).1 .metaReader
+        [some (Sqfs.Obj.newBuf (grab (grab h file) cmp) fieldsBuf).2] [] [some file, some cmp]).2 :: P) PB []
     apply Bal.newObj
-    · apply b2.perm
+    · apply b3.perm
       · intro x; simp only [List.filterMap_cons, id, List.filterMap_nil, List.nil_append, List.cons_append, List.count_cons]; omega
       · intro _; rfl
     · intro r hr
@@ -62,41 +68,51 @@ theorem Bal.newMetaReader {h : Heap} {U : Nat → Nat} {P PB : List Nat} (hb : B
       · subst hr; exact b2.bound r hc2
     · intro v hv; simp at hv
   · intro x hx
-    unfold Sqfs.Obj.newMetaReader
-    exact newObj_live _ _ _ _ (grab_live b1 hc1 (grab_live hb hf hx))
+    show ((Sqfs.Obj.newObj (Sqfs.Obj.newBuf (grab (grab h file) cmp) fieldsBuf).1 .metaReader [some (Sqfs.Obj.newBuf (grab (grab h file) cmp) fieldsBuf).2] []
+        [some file, some cmp]).1.objs x).isSome
+    exact newObj_live _ _ _ _ (by rw [newBuf_objs]; exact grab_live b1 hc1 (grab_live hb hf hx))
 
-theorem newBuf_objs (h : Heap) (bf : Buf) : (newBuf h bf).1.objs = h.objs := rfl
-theorem newBuf_nobj (h : Heap) (bf : Buf) : (newBuf h bf).1.nobj = h.nobj := rfl
+/-- an object whose only slots are freshly allocated buffers (compressors, files) -/
+theorem Bal.newLeaf1 {h : Heap} {U : Nat → Nat} {P PB : List Nat} (hb : Bal h U P PB []) (k : Kind) (b1 : Buf) :
+    Bal (Sqfs.Obj.newObj (Sqfs.Obj.newBuf h b1).1 k [some (Sqfs.Obj.newBuf h b1).2] [] []).1 U ((Sqfs.Obj.newObj (Sqfs.Obj.newBuf h b1).1 k [some (Sqfs.Obj.newBuf h b1).2] [] []).2 :: P) PB [] :=
+  Bal.newObj k _ [] [] (hb.newBuf b1) (by simp) (by simp)
+
+theorem Bal.newLeaf2 {h : Heap} {U : Nat → Nat} {P PB : List Nat} (hb : Bal h U P PB []) (k : Kind) (b1 b2 : Buf) :
+    Bal (Sqfs.Obj.newObj (Sqfs.Obj.newBuf (Sqfs.Obj.newBuf h b1).1 b2).1 k [some (Sqfs.Obj.newBuf h b1).2, some (Sqfs.Obj.newBuf (Sqfs.Obj.newBuf h b1).1 b2).2] [] []).1 U
+      ((Sqfs.Obj.newObj (Sqfs.Obj.newBuf (Sqfs.Obj.newBuf h b1).1 b2).1 k [some (Sqfs.Obj.newBuf h b1).2, some (Sqfs.Obj.newBuf (Sqfs.Obj.newBuf h b1).1 b2).2] [] []).2 :: P) PB [] := by
+  refine Bal.newObj k _ [] [] ?_ (by simp) (by simp)
+  apply ((hb.newBuf b1).newBuf b2).perm
+  · intro _; rfl
+  · intro x; simp only [List.filterMap_cons, id, List.filterMap_nil, List.nil_append, List.cons_append, List.count_cons]; omega
 
 /-- **every constructor keeps the heap balanced**; the caller holds the one reference to the new object -/
 theorem construct_bal (k : Kind) {h : Heap} {U : Nat → Nat} {P PB : List Nat} (hb : Bal h U P PB []) {file cmp : Nat}
     (hf : (h.objs file).isSome) (hc : (h.objs cmp).isSome) :
     Bal (construct h k file cmp).1 U ((construct h k file cmp).2 :: P) PB [] := by
-  have leaf : ∀ k', Bal (newObj h k' [] [] []).1 U ((newObj h k' [] [] []).2 :: P) PB [] := fun k' =>
-    Bal.newObj k' [] [] [] (by simpa using hb) (by simp) (by simp)
   have tbl : ∀ k', Bal (newObj h k' [none] [] []).1 U ((newObj h k' [none] [] []).2 :: P) PB [] := fun k' =>
     Bal.newObj k' [none] [] [] (by simpa using hb) (by simp) (by simp)
   cases k with
-  | gzip => exact leaf _
-  | xz => exact leaf _
-  | lzma => exact leaf _
-  | lz4 => exact leaf _
-  | zstd => exact leaf _
+  | gzip => exact hb.newLeaf2 _ _ _
+  | zstd => exact hb.newLeaf2 _ _ _
+  | xz => exact hb.newLeaf1 _ _
+  | lzma => exact hb.newLeaf1 _ _
+  | lz4 => exact hb.newLeaf1 _ _
+  | file => exact hb.newLeaf2 _ _ _
   | fragTable => exact tbl _
   | idTable => exact tbl _
   | metaReader => exact (hb.newMetaReader hf hc).1
-  | file =>
-    have b1 := hb.newBuf ⟨1, 1, 0⟩
-    exact Bal.newObj .file [some (newBuf h ⟨1, 1, 0⟩).2] [] [] b1 (by simp) (by simp)
   | xattrReader =>
-    exact Bal.newObj .xattrReader [none] [] [none, none] (by simpa using hb) (by simp) (by simp)
+    have b1 := hb.newBuf fieldsBuf
+    exact Bal.newObj .xattrReader [none, some (newBuf h fieldsBuf).2] [] [none, none] b1 (by simp) (by simp)
   | dirReader =>
     obtain ⟨b1, l1⟩ := hb.newMetaReader hf hc
     obtain ⟨b2, l2⟩ := b1.newMetaReader (l1 _ hf) (l1 _ hc)
-    refine Bal.newObj .dirReader [none] [] [some (newMetaReader h file cmp).2, some (newMetaReader (newMetaReader h file cmp).1 file cmp).2] ?_ ?_ (by simp)
-    · apply b2.perm
+    have b3 := b2.newBuf fieldsBuf
+    refine Bal.newObj .dirReader [none, some (newBuf (newMetaReader (newMetaReader h file cmp).1 file cmp).1 fieldsBuf).2] []
+      [some (newMetaReader h file cmp).2, some (newMetaReader (newMetaReader h file cmp).1 file cmp).2] ?_ ?_ (by simp)
+    · apply b3.perm
       · intro x; simp only [List.filterMap_cons, id, List.filterMap_nil, List.nil_append, List.cons_append, List.count_cons]; omega
-      · intro _; rfl
+      · intro x; simp only [List.filterMap_cons, id, List.filterMap_nil, List.nil_append, List.cons_append, List.count_cons]
     · intro r hr
       simp only [List.mem_cons, Option.some.injEq, List.not_mem_nil, or_false] at hr
       rcases hr with hr | hr
@@ -119,10 +135,12 @@ theorem construct_bal (k : Kind) {h : Heap} {U : Nat → Nat} {P PB : List Nat} 
     have hft3 := grab_live b2 hc2 (grab_live b1 hf1 (by rw [hoft]; rfl))
     have hf3 := grab_live b2 hc2 (grab_live b1 hf1 hf1)
     have hc3 := grab_live b2 hc2 hc2
-    refine Bal.newObj .dataReader [none, none] [] [some (newObj h .fragTable [none] [] []).2, some file, some cmp] ?_ ?_ (by simp)
-    · apply b3.perm
+    have b4 := b3.newBuf fieldsBuf
+    refine Bal.newObj .dataReader [none, none, some (newBuf (grab (grab (newObj h .fragTable [none] [] []).1 file) cmp) fieldsBuf).2] []
+      [some (newObj h .fragTable [none] [] []).2, some file, some cmp] ?_ ?_ (by simp)
+    · apply b4.perm
       · intro x; simp only [List.filterMap_cons, id, List.filterMap_nil, List.nil_append, List.cons_append, List.count_cons]; omega
-      · intro _; rfl
+      · intro x; simp only [List.filterMap_cons, id, List.filterMap_nil, List.nil_append, List.cons_append, List.count_cons]
     · intro r hr
       simp only [List.mem_cons, Option.some.injEq, List.not_mem_nil, or_false] at hr
       rcases hr with hr | hr | hr
